@@ -15,6 +15,9 @@ inductive Act
   | mutate (k : Int)
   | cancel
   | emit (h : Nat) (x : Int)
+  /-- emit on `h` with the current payload minus one, but only while the payload is positive
+  (a listener that re-enters its own handler, with a bound) -/
+  | emitDec (h : Nat)
 deriving Repr, DecidableEq, Inhabited
 
 structure L where
@@ -56,6 +59,15 @@ def runScript (nested : Nat → Int → Option (List Out × Bool)) (kind : Nat) 
       match runScript nested kind rest x with
       | none => none
       | some (o', x', c) => some (o ++ o', x', c)
+  | .emitDec h :: rest, x =>
+    if x > 0 then
+      match nested h (x - 1) with
+      | none => none
+      | some (o, _) =>
+        match runScript nested kind rest x with
+        | none => none
+        | some (o', x', c) => some (o ++ o', x', c)
+    else runScript nested kind rest x
 
 /-- deliver to the listeners in list order; stop after the first one that cancels -/
 def runListeners (nested : Nat → Int → Option (List Out × Bool)) (d h kind : Nat) :
@@ -109,7 +121,9 @@ inductive Op
 
 def setH (t : Table) (h : Nat) (hd : H) : Table := t.set h hd
 
-def fuelFor (t : Table) : Nat := t.length + 2
+/-- enough for emissions that go to later handlers or re-enter with a decreasing payload, up to the
+nesting depth 64 at which the harness gives up; a top-level emission adds its payload -/
+def fuelFor (t : Table) : Nat := t.length + 66
 
 def step (t : Table) : Op → Table × List Out
   | .mk kind => (t ++ [{ kind := kind }], [])
@@ -126,7 +140,7 @@ def step (t : Table) : Op → Table × List Out
       | none => (t, [Out.badOrder])
   | .emit h x =>
     if h < t.length then
-      match emit (fuelFor t) t 0 h x with
+      match emit (fuelFor t + x.toNat) t 0 h x with
       | none => (t, [])
       | some (o, c) => (t, o ++ [Out.ret h c])
     else (t, [])
